@@ -121,6 +121,9 @@ func init() {
 				}
 				continue
 			}
+			if a[i] == "~" || a[i] == "=" {
+				return Unspecified("bare ~ or = outside MAXLEN/MINID")
+			}
 			break
 		}
 		if i >= len(a) {
@@ -158,6 +161,9 @@ func init() {
 			}
 			if !plain {
 				return Unspecified("non-canonical ID spelling")
+			}
+			if pid.Ms > math.MaxInt64 || pid.Seq > math.MaxInt64 {
+				return Unspecified("ID component beyond int64")
 			}
 			id = pid
 		}
@@ -199,6 +205,9 @@ func init() {
 		}
 		if auto {
 			nowMs := uint64(db.Now) * 1000
+			if last.Ms > nowMs+5000 && last.Seq >= math.MaxInt64 {
+				return Unspecified("sequence beyond int64")
+			}
 			rep := Pred(func(act respx.Value) error {
 				if !isStr(act) {
 					return fmt.Errorf("expected the new ID as a string")
@@ -210,7 +219,7 @@ func init() {
 				if !last.Less(got) {
 					return fmt.Errorf("auto-generated ID %s is not greater than the stream's last ID %s", got, last)
 				}
-				if last.Ms+1 > nowMs+5000 {
+				if last.Ms > nowMs+5000 {
 					// the clock is behind the last ID: the reference keeps the ms and bumps the sequence
 					if got.Ms != last.Ms || got.Seq != last.Seq+1 {
 						return fmt.Errorf("last ID %s is ahead of the clock: expected %d-%d", last, last.Ms, last.Seq+1)
@@ -233,8 +242,8 @@ func init() {
 				return Err()
 			}
 			if id.Ms == last.Ms {
-				if last.Seq == math.MaxUint64 {
-					return Err()
+				if last.Seq >= math.MaxInt64 {
+					return Unspecified("sequence beyond int64")
 				}
 				id.Seq = last.Seq + 1
 			} else {
@@ -264,6 +273,9 @@ func init() {
 			return Unspecified("XRANGE COUNT is outside the property's list")
 		}
 		parseBound := func(s string, isStart bool) (StreamID, Reply, bool) {
+			if (s == "-" && !isStart) || (s == "+" && isStart) {
+				return StreamID{}, Unspecified("'-' as end bound / '+' as start bound"), false
+			}
 			if s == "-" {
 				return StreamID{}, Reply{}, true
 			}
@@ -277,9 +289,12 @@ func init() {
 			if !isStart {
 				missing = math.MaxUint64
 			}
-			id, ok, _, _ := ParseStreamID(s, missing)
+			id, ok, seqGiven, _ := ParseStreamID(s, missing)
 			if !ok {
 				return StreamID{}, Err(), false
+			}
+			if id.Ms > math.MaxInt64 || (seqGiven && id.Seq > math.MaxInt64) {
+				return StreamID{}, Unspecified("ID component beyond int64"), false
 			}
 			return id, Reply{}, true
 		}
